@@ -69,6 +69,12 @@ type mutationMap struct {
 	signerID      string
 	kv            map[string]string // the keys and values we populate
 
+	// reindexOfPartial is whether the blob was already stored once while a
+	// dependency was not indexed yet (a delete claim before its target: have
+	// row without "|indexed"). The corpus then only got its meta row and
+	// still has to merge the other rows and the deletes.
+	reindexOfPartial bool
+
 	// We record if we get a delete claim, so we can update
 	// the deletes cache right after committing the mutation.
 	//
@@ -227,7 +233,9 @@ func (ix *Index) ReceiveBlob(ctx context.Context, blobRef blob.Ref, source io.Re
 	// always index it. This is generally only useful when working
 	// on the indexing code and retroactively indexing a subset of
 	// content without forcing a global reindexing.
+	reindexOfPartial := false
 	if haveVal, haveErr := ix.s.Get("have:" + blobRef.String()); haveErr == nil {
+		reindexOfPartial = !strings.HasSuffix(haveVal, "|indexed")
 		if strings.HasSuffix(haveVal, "|indexed") {
 			if allowReindex, _ := strconv.ParseBool(os.Getenv("CAMLI_REDO_INDEX_ON_RECEIVE")); allowReindex {
 				if debugEnv {
@@ -252,6 +260,9 @@ func (ix *Index) ReceiveBlob(ctx context.Context, blobRef blob.Ref, source io.Re
 	mm, err := ix.populateMutationMap(ctx, fetcher, blobRef, sniffer)
 	if debugEnv {
 		log.Printf("index of %v: mm=%v, err=%v", blobRef, mm, err)
+	}
+	if mm != nil {
+		mm.reindexOfPartial = reindexOfPartial
 	}
 	// err is checked below
 
